@@ -63,6 +63,11 @@ T = {
  'c18x': ('the same library constant under two contexts of one format with different rounding modes', 'C18 A3 on circle / consts'),
  'c19v': ("split with a factor given by the name of a variable, cursor on a statement after the loop", 'C19 edit-log-miscounts / forward-unrelated (needed variable factors among the generated parameters)'),
  'c19w': ('insert_round aimed by a statement cursor or region holding a refused operation and listed sites', 'C19 cursor-naming-sites-rejected (needed that rule)'),
+ 'c17p': ('a fixed-point context with random bits, the round_at / round_integer route, a non-dyadic Fraction or decimal-string operand', 'C17 count-mismatch on the round_at route'),
+ 'c18y': ('a display of literals containing a nested list that the program writes, evaluated twice', 'C18 H1/A3 on tally / fill (needed those workloads)'),
+ 'c18z': ('two threads on the MPFR exponent-probe path at once (fixed-point contexts, %, floor of a rational)', 'C18 A3 (exc:SystemError)'),
+ 'c19x': ('unroll_for PEEL, outer loop of static length with a leftover and a loop nested in it, where=None', 'C19 all-sites-differs-from-one-at-a-time (needed that rule)'),
+ 'c19y': ('a within= cursor inside one arm of an if/else with a candidate at the same indices of the other arm', 'C19 within-not-the-sites-at-or-beneath'),
 }
 base = os.path.join(os.path.dirname(os.path.dirname(os.path.abspath(__file__))), 'seeded')
 for mid, (needs, caught) in T.items():
